@@ -439,6 +439,20 @@ macro_rules! compile {
     (@inner ($($prev_metas:tt)*))=>{};
 }
 
+// Reports an event to the verification observer, expands to nothing without `--cfg lasso_verif`
+#[cfg(lasso_verif)]
+#[allow(unused_macros)]
+macro_rules! verif_point {
+    ($site:ident, $a:expr, $b:expr) => {
+        $crate::verif::point($crate::verif::site::$site, $a, $b)
+    };
+}
+#[cfg(not(lasso_verif))]
+#[allow(unused_macros)]
+macro_rules! verif_point {
+    ($site:ident, $a:expr, $b:expr) => {};
+}
+
 macro_rules! index_unchecked {
     ($slice:expr, $idx:expr) => {{
         let elem: &_ = if cfg!(debug_assertions) {
